@@ -31,9 +31,11 @@ var poolRegexp = []string{`/{x:\d+}`, `/a/{x:\d+}`, `/a/{x:\d+}.h`, `/a/{x:\d*}`
 	`/a/{x:\d+-\d+}-{y}`,
 	// a regexp sibling that also accepts the literal text of /a/{x}/bc: registered after it (the literal is what is
 	// left of a split parameter node) or before it, the literal wins
-	`/a/{x}/{y:\w+}`}
+	`/a/{x}/{y:\w+}`,
+	"/a/{x:.+}\u00e9"}
 var poolGreedy = []string{`/{x:.+}/b`}
-var poolIcpt = []string{"/a/{x:digit}", "/a/{x:digit}/b", "/{x:word}/b", "/a/{x:any}", "/a/{-x:digit}/c", "/a/{x:any}bb", "/a/{x:digit}/cd", "/a/{x:digit}/ce", "/a/{x:range}-{y}", "/a/{x:range}-b", "/a/{x}/{y:word}"}
+var poolIcpt = []string{"/a/{x:digit}", "/a/{x:digit}/b", "/{x:word}/b", "/a/{x:any}", "/a/{-x:digit}/c", "/a/{x:any}bb", "/a/{x:digit}/cd", "/a/{x:digit}/ce", "/a/{x:range}-{y}", "/a/{x:range}-b", "/a/{x}/{y:word}",
+	"/a/{x:any}\u00e9"} // a multi-byte literal after a constrained parameter whose value may contain it: the occurrence at 0 is refused (empty), a later one taken
 var indexBlock = []string{"/c", "/d", "/e", "/f", "/g"}
 
 func poolD(ic string, tier string) []string {
@@ -48,7 +50,7 @@ func poolD(ic string, tier string) []string {
 	return d
 }
 
-var paramValues = []string{"", "1", "12", "a", "b", "z", "1/b", "1-2", "a/b", "a-b", "1.h", "ab", "1bb", "1-12-b", "abb", "a/b/b", "*", "\u0661", "\u00e9", "a\nb", "18446744073709551616"} // a non-ASCII digit and letter; a line feed ('.' in a rule does not match it)
+var paramValues = []string{"", "1", "12", "a", "b", "z", "1/b", "1-2", "a/b", "a-b", "1.h", "ab", "1bb", "1-12-b", "abb", "a/b/b", "*", "\u0661", "\u00e9", "a\nb", "18446744073709551616", "/b"} // "/b": a value that is itself the literal text following {x:.+} - the first occurrence is refused, the second taken // a non-ASCII digit and letter; a line feed ('.' in a rule does not match it)
 
 // probeSet builds the finite probe set of a table.
 func probeSet(pats []*ref.Pattern, maxLen int) []string {
